@@ -1839,13 +1839,24 @@ fn parse_type_arguments(
         return (vec![], None);
     }
 
-    require_token(tokens, diagnostics, "<");
+    let open_token = require_token(tokens, diagnostics, "<");
 
-    let mut args = vec![];
+    let mut args: Vec<TypeHint> = vec![];
     let close_pos = loop {
-        if let Some(token) = tokens.peek() {
-            if token.text == ">" {
-                break token.position;
+        match tokens.peek() {
+            Some(token) => {
+                if token.text == ">" {
+                    break token.position;
+                }
+            }
+            None => {
+                // At the end of the file there is no type hint to
+                // parse, and trying would step back onto the `<` and
+                // recurse forever. The missing `>` is reported below.
+                break match args.last() {
+                    Some(arg) => arg.position.clone(),
+                    None => open_token.position,
+                };
             }
         }
         let start_idx = tokens.idx;
